@@ -90,7 +90,7 @@ func genTails(c *core.Ctx, thorough bool) []tailCase {
 	for i := 0; i < ng; i++ {
 		g := make([]byte, 1+rng.Intn(700))
 		rng.Read(g)
-		if i%3 == 0 {
+		if i%3 == 0 && len(g) >= 2 {
 			// small claimed sizes so that the "record" fits into the garbage
 			g[0], g[1] = byte(rng.Intn(8)), 0
 			if len(g) > 6 {
